@@ -82,12 +82,12 @@ Definition rearmed (r:rnode) (i:Z) (pm:msg) (sq:Z) (ms:Z) : rnode :=
   tp_state r i (Some pm) (sched_from_now (w64 r) (now r) ms) sq (d_has_pending (get_dev (rn r) i)).
 Definition ended (r:rnode) (i:Z) : rnode := tp_state r i None (sched_disabled (w64 r)) (d_next_dt_seq (get_dev (rn r) i)) false.
 
-(* 2. CTS: for a CTS (any sender address - see statement 2g) addressed to the device, with the PGN of the pending message and
+(* 2. CTS: for a CTS from the destination of the pending message (other senders: statement 2g), addressed to the device, with the PGN of the pending message and
       next = NextDTSequence + 1, granting g in 1..255: exactly min(g, remaining) TP.DT frames, numbered consecutively from [next], each
       the reference chunk of the payload, go to the destination; the sequence advances, the 100 ms timer is re-armed.
       g = 0: nothing is sent, the timer is re-armed.  Wrong next packet (g >= 1) or wrong PGN: nothing is sent, the session ends. *)
 Definition tp_cts_serves_stmt : Prop :=
-  forall r i pm sq from dst g nxt pgn, tp_pending r i pm sq -> m_dst pm <> 255 -> addressed r dst i -> 0 <= from < 256 ->
+  forall r i pm sq from dst g nxt pgn, tp_pending r i pm sq -> m_dst pm <> 255 -> addressed r dst i -> from = m_dst pm ->
     0 <= g < 256 -> 0 <= nxt < 256 -> 0 <= pgn < 2^24 -> 0 <= m_pgn pm < 2^24 ->
     let res := handle_tp r 60416 from dst 8 (cm_cts g nxt pgn) in
     (pgn = m_pgn pm -> 1 <= g -> nxt = sq + 1 ->
@@ -106,26 +106,27 @@ Fixpoint feed_cm (r:rnode) (from dst:Z) (frames:list (list Z)) : rnode * list ev
       data packets sent are exactly the reference packets 1..n of the payload, in order, each once; the transfer is still pending
       (it ends on the acknowledgement) *)
 Definition tp_all_packets_once_stmt : Prop :=
-  forall gs r i pm from dst, tp_pending r i pm 0 -> m_dst pm <> 255 -> addressed r dst i -> 0 <= from < 256 -> 0 <= m_pgn pm < 2^24 ->
+  forall gs r i pm from dst, tp_pending r i pm 0 -> m_dst pm <> 255 -> addressed r dst i -> from = m_dst pm -> 0 <= m_pgn pm < 2^24 ->
     Forall (fun g => 0 <= g < 256) gs -> npackets (m_len pm) <= fold_right Z.add 0 gs ->
     let '(r', ev) := feed_cm r from dst (peer_cts gs (npackets (m_len pm)) 0 (m_pgn pm)) in
     ev = dt_events (m_src pm) (m_dst pm) (m_data pm) 0 (Z.to_nat (npackets (m_len pm))) /\
     map (fun e => match e with EvTx _ _ d _ => d | _ => [] end) ev = map (dt_frame (m_data pm)) (seq 1 (Z.to_nat (npackets (m_len pm)))) /\
     tp_pending r' i pm (npackets (m_len pm)).
 
-(* 2g. the sender does not compare the sender address of CTS / EndOfMsgAck / Abort with the destination of its pending transfer:
-       the unrestricted "only the packets the destination clears" is false of the model.  Witness in the proofs (replayed on the C++). *)
-Definition tp_foreign_cts_ignored_stmt : Prop :=
-  forall r i pm sq from dst g nxt pgn, tp_pending r i pm sq -> m_dst pm <> 255 -> addressed r dst i -> 0 <= from < 256 -> from <> m_dst pm ->
-    let '(_, r', ev, _) := handle_tp r 60416 from dst 8 (cm_cts g nxt pgn) in
-    ev = [] /\ d_tp_msg (get_dev (rn r') i) = Some pm.
+(* 2g. control frames from a third station: a CTS, EndOfMsgAck or Abort (whatever its other bytes) addressed to the device by a station that
+       is not the destination of the pending transfer sends nothing and changes nothing: only the packets the destination clears are sent,
+       and only the destination can end the session.  (False of the library before fix b807027; the former witness is an Example in Props.) *)
+Definition tp_foreign_ctrl_ignored_stmt : Prop :=
+  forall r i pm sq from dst ctrl x1 x2 x3 x4 x5 x6 x7, tp_pending r i pm sq -> m_dst pm <> 255 -> addressed r dst i -> from <> m_dst pm ->
+    ctrl = 17 \/ ctrl = 19 \/ ctrl = 255 ->
+    handle_tp r 60416 from dst 8 [ctrl; x1; x2; x3; x4; x5; x6; x7] = (true, r, [], nslots r).
 
-(* 4. the session ends - pending message cleared, timer disabled - on EndOfMsgAck or Abort addressed to the device and, for an addressed
+(* 4. the session ends - pending message cleared, timer disabled - on EndOfMsgAck or Abort from the destination addressed to the device and, for an addressed
       transfer, at the first SendPendingTPMessage whose timer has expired (no CTS within the timeout); while the timer has not expired
       nothing happens.  The device is then ready for statement 1 again: a later transfer starts. *)
 Definition tp_ack_abort_timeout_stmt : Prop :=
   forall r i pm sq, tp_pending r i pm sq -> m_dst pm <> 255 ->
-    (forall from dst ctrl b1' b2' b3' b4' pgn, addressed r dst i -> 0 <= from < 256 -> ctrl = 19 \/ ctrl = 255 ->
+    (forall from dst ctrl b1' b2' b3' b4' pgn, addressed r dst i -> from = m_dst pm -> ctrl = 19 \/ ctrl = 255 ->
        handle_tp r 60416 from dst 8 [ctrl; b1'; b2'; b3'; b4'; b0 pgn; b1 pgn; b2 pgn] = (true, ended r i, [], nslots r)) /\
     (sched_is_time (w64 r) (now r) (d_next_dt_time (get_dev (rn r) i)) = true -> send_pending_tp r i = (ended r i, [])) /\
     (sched_is_time (w64 r) (now r) (d_next_dt_time (get_dev (rn r) i)) = false -> send_pending_tp r i = (r, [])) /\
@@ -157,9 +158,15 @@ Definition tp_bam_stmt : Prop :=
            [dt_event (m_src pm) 255 (m_data pm) (S (Z.to_nat sq))]))).
 
 (* ================= the receiving side ================= *)
-(* index of the first slot that is free or already holds the transport session (pgn, src, dst) *)
-Definition usable (pgn src dst:Z) (s:slot) : bool := s_free s || ((s_pgn s =? pgn) && (s_src s =? src) && (s_dst s =? dst) && Bool.eqb (s_tp s) true).
 Fixpoint first_idx (f:slot -> bool) (l:list slot) : Z := match l with [] => 0 | s :: rest => if f s then 0 else 1 + first_idx f rest end.
+(* one connection per pair of stations: an announcement from [src] to [dst] for [pgn] first releases every transport session that is still
+   open between them for another PGN (its originator gave up) *)
+Definition stale (pgn src dst:Z) (s:slot) : bool := negb (s_free s) && s_tp s && (s_src s =? src) && (s_dst s =? dst) && negb (s_pgn s =? pgn).
+Definition release (pgn src dst:Z) (slots:list slot) : list slot := map (fun s => if stale pgn src dst s then free_slot s else s) slots.
+(* the slot an announcement uses: the busy slot that already holds the session (pgn, src, dst), else the first free slot; = length when none *)
+Definition holds (pgn src dst:Z) (s:slot) : bool := negb (s_free s) && (s_pgn s =? pgn) && (s_src s =? src) && (s_dst s =? dst) && Bool.eqb (s_tp s) true.
+Definition slot_for (pgn src dst:Z) (slots:list slot) : Z :=
+  let k := first_idx (holds pgn src dst) slots in if k <? Z.of_nat (length slots) then k else first_idx (fun s => s_free s) slots.
 Definition grant_of (packets:Z) : Z := Z.max 1 (Z.min packets 5).
 Definition session_slot (old:slot) (known sys:bool) (pgn src dst size t tpmax tpreq:Z) : slot :=
   {| s_free := false; s_ready := s_ready old; s_known := known; s_system := sys; s_pri := 7; s_pgn := pgn; s_src := src; s_dst := dst; s_tp := true;
@@ -170,27 +177,28 @@ Definition flagged_slot (old:slot) (known sys:bool) : slot :=
      s_tpmax := s_tpmax old; s_tpreq := s_tpreq old |}.
 
 (* 6. RTS addressed to device i (ready to send) from [src], announcing [size] bytes, a packet count byte [packets] and a limit byte [maxp],
-      PGN [pgn], with a free or matching slot at [idx]:
+      PGN [pgn].  Sessions still open between the two stations for other PGNs are released; then, with a slot for the session at [idx]:
       - size <= 223 and the PGN is known or all messages are handled: one CTS from the device to [src] granting max 1 (min packets 5)
         packets from packet 1, the slot becomes the session (priority 7, PGN, source, destination, TP, announced size, no data, LastFrame 0);
       - otherwise (too long / unknown with only-known): one Abort (reason 1), the slot stays what it was (only its known/system flags change);
-      and with no usable slot and none that has timed out: one Abort (reason 1), nothing changes *)
+      and with no slot and none that has timed out: one Abort (reason 1) *)
 Definition tp_rts_answered_stmt : Prop :=
   forall r i src dst size packets maxp pgn, tp_ready (rn r) i -> addressed r dst i -> 0 <= src < 256 ->
     0 <= size < 65536 -> 0 <= packets < 256 -> 0 <= maxp < 256 -> 0 <= pgn < 2^24 ->
     let buf := [16; b0 size; b1 size; packets; maxp; b0 pgn; b1 pgn; b2 pgn] in
-    let idx := first_idx (usable pgn src dst) (r_slots r) in
+    let slots := release pgn src dst (r_slots r) in
+    let idx := slot_for pgn src dst slots in
     let '(known, sys, _) := check_known (n_pgn (rn r)) pgn in
     (idx < nslots r ->
-       let old := znth (r_slots r) idx slot0 in
+       let old := znth slots idx slot0 in
        if (size <=? 223) && (known || negb (c_only_known (r_cfg r)))
        then handle_tp r 60416 src dst 8 buf =
-              (true, with_slots r (zset (r_slots r) idx (session_slot old known sys pgn src dst size (now32 r) packets (grant_of packets))),
+              (true, with_slots r (zset slots idx (session_slot old known sys pgn src dst size (now32 r) packets (grant_of packets))),
                [cm_event dst src (cm_cts (grant_of packets) 1 pgn)], nslots r)
        else handle_tp r 60416 src dst 8 buf =
-              (true, with_slots r (zset (r_slots r) idx (flagged_slot old known sys)), [cm_event dst src (cm_abort 1 pgn)], nslots r)) /\
-    (idx = nslots r -> Forall (fun s => has_elapsed (s_time s) 100 (now32 r) = false) (r_slots r) ->
-       handle_tp r 60416 src dst 8 buf = (true, r, [cm_event dst src (cm_abort 1 pgn)], nslots r)).
+              (true, with_slots r (zset slots idx (flagged_slot old known sys)), [cm_event dst src (cm_abort 1 pgn)], nslots r)) /\
+    (idx = nslots r -> Forall (fun s => has_elapsed (s_time s) 100 (now32 r) = false) slots ->
+       handle_tp r 60416 src dst 8 buf = (true, with_slots r slots, [cm_event dst src (cm_abort 1 pgn)], nslots r)).
 
 (* an open receive session in slot [idx]: k packets received so far, [data] = their 7k data bytes *)
 Definition rx_session (r:rnode) (idx src dst pgn size:Z) (k:Z) (data:list Z) (tpmax tpreq:Z) : Prop :=
@@ -280,22 +288,36 @@ Definition tp_gap_no_delivery_stmt : Prop :=
     handle_tp r 60160 src dst 8 (sq :: chunk) = (true, r', (if 1 <=? tpreq then [cm_event dst src (cm_abort 3 pgn)] else []), nslots r) /\
     (forall b, handle_tp r' 60160 src dst 8 b = (true, r', [], nslots r')).
 
-(* 8s. the receive slot of a session its originator gave up is never released (no receive timeout, TP.CM Abort from the originator is not
-       acted on, TP.DT is matched by source and destination only): "a later transfer from the same source proceeds and nothing corrupted is
-       delivered" is false of the model.  Witness in the proofs (replayed on the C++). *)
+(* 8s. a session its originator gave up - at any point: before the first packet, in the middle, before the last packet - does not stand in
+       the way of a later transfer between the same stations with another PGN: the new RTS is answered with a CTS from packet 1, the old
+       session is released, and the new session is the only one between the two stations, set up exactly as statements 7a-7c and 8 expect.
+       (False of the library before fix 7b28730: the data packets went to the old session; the former witness is an Example in Props.) *)
+Definition free_not_ready (r:rnode) : Prop := Forall (fun s => s_free s = true -> s_ready s = false) (r_slots r).     (* as FreeMessage leaves them *)
+Definition tp_new_session_replaces_stmt : Prop :=
+  forall r i idxA src dst pgnA sizeA k data tpmaxA tpreqA pgnB sizeB maxp,
+    rx_session r idxA src dst pgnA sizeA k data tpmaxA tpreqA -> only_session r idxA src dst -> free_not_ready r ->
+    tp_ready (rn r) i -> addressed r dst i -> 0 <= src < 256 -> pgnB <> pgnA -> 0 <= pgnB < 2^24 -> 9 <= sizeB <= 223 -> 0 <= maxp < 256 ->
+    fst (fst (check_known (n_pgn (rn r)) pgnB)) = true \/ c_only_known (r_cfg r) = false ->
+    let g := grant_of (npackets sizeB) in
+    exists r' idxB,
+      handle_tp r 60416 src dst 8 (cm_rts sizeB maxp pgnB) = (true, r', [cm_event dst src (cm_cts g 1 pgnB)], nslots r) /\
+      rx_session r' idxB src dst pgnB sizeB 0 [] (npackets sizeB) g /\ rx_answer r' dst g i /\ only_session r' idxB src dst /\
+      free_not_ready r' /\ nslots r' = nslots r /\
+      s_system (znth (r_slots r') idxB slot0) = snd (fst (check_known (n_pgn (rn r)) pgnB)).
+(* ... and so the later transfer is received completely and its message carries its own PGN and its own payload *)
 Definition tp_later_transfer_stmt : Prop :=
-  forall (gf:rnode -> slot -> rnode * list event) r0 src dst pgnA pgnB sizeA pB i waitms,
-    (* r0: open active node, all slots free, device i ready at address dst *)
-    tp_ready (rn r0) i -> addressed r0 dst i -> Forall (fun s => s_free s = true) (r_slots r0) -> 2 <= nslots r0 -> r_q r0 = [] ->
-    0 <= src < 256 -> pgnA <> pgnB -> 9 <= sizeA <= 223 -> 9 <= Z.of_nat (length pB) <= 223 -> bytes_ok pB -> 0 <= waitms ->
-    let frame id d := {| r_id := id; r_len := 8; r_buf := d |} in
-    let rtsA := frame (tp_cm_id src dst) (cm_rts sizeA 255 pgnA) in
-    let rtsB := frame (tp_cm_id src dst) (cm_rts (Z.of_nat (length pB)) 255 pgnB) in
-    let dtsB := map (fun k => frame (tp_dt_id src dst) (dt_frame pB k)) (seq 1 (Z.to_nat (npackets (Z.of_nat (length pB))))) in
-    (* the originator opens A, gives up, and after [waitms] transfers B completely *)
-    let ops := [RRx rtsA; RPoll; RBase (OTick waitms); RRx rtsB; RPoll] ++ map RRx dtsB ++ [RPoll; RPoll] in
-    let evs := concat (snd (rrun gf r0 ops)) in
-    forall m, In (EvDeliver m) evs -> m_src m = src -> m_pgn m = pgnB /\ m_data m = pB.
+  forall steps r i idxA src dst pgnA sizeA k data tpmaxA tpreqA pgnB sizeB maxp,
+    rx_session r idxA src dst pgnA sizeA k data tpmaxA tpreqA -> only_session r idxA src dst -> free_not_ready r ->
+    tp_ready (rn r) i -> addressed r dst i -> 0 <= src < 256 -> pgnB <> pgnA -> 0 <= pgnB < 2^24 -> 9 <= sizeB <= 223 -> 0 <= maxp < 256 ->
+    fst (fst (check_known (n_pgn (rn r)) pgnB)) = true \/ c_only_known (r_cfg r) = false ->
+    Z.of_nat (length steps) = npackets sizeB -> Forall (fun st => keeps_session (fst st) /\ length (snd st) = 7%nat) steps ->
+    let g := grant_of (npackets sizeB) in
+    let '(_, r1, ev1, _) := handle_tp r 60416 src dst 8 (cm_rts sizeB maxp pgnB) in
+    let '(r2, evs, ix) := feed_dt r1 src dst 1 steps in
+    ev1 = [cm_event dst src (cm_cts g 1 pgnB)] /\ evs = expected_answers dst src pgnB sizeB (npackets sizeB) g (length steps) /\
+    slot_msg (znth (r_slots r2) ix slot0) =
+      {| m_pri := 7; m_pgn := pgnB; m_src := src; m_dst := dst; m_data := firstn (Z.to_nat sizeB) (concat (map snd steps)); m_tp := true |} /\
+    s_ready (znth (r_slots r2) ix slot0) = true.
 
 (* ================= library to library ================= *)
 (* two nodes joined by a loss-free FIFO link: every frame one node hands to its driver is read by the other, in order.  One step takes
@@ -316,15 +338,14 @@ Fixpoint link (gf:rnode -> slot -> rnode * list event) (fuel:nat) (a b:rnode) (t
       end
     end
   end.
-(* not yet proved *)
-(* 9. proved so far: tp_lib_to_lib_partial in Proofs/TpProofsD.v (every length 9..223, one byte pattern, by evaluation).
-      For every payload of 9..223 bytes: device ia of node A sends it to device ib of node B (both ready, B with a usable slot and no other
+(* 9. (a check by evaluation for every length with one byte pattern is tp_lib_to_lib_partial in Proofs/TpProofsD.v.)
+      For every payload of 9..223 bytes: device ia of node A sends it to device ib of node B (both ready, B's slots free - and, as FreeMessage leaves them, not marked ready - and no other
       session from A's address); after the link has drained, B has delivered exactly one message - PGN, A's address, B's address, the
       payload - and A's transfer has ended *)
 Definition tp_lib_to_lib_stmt : Prop :=
   forall gf a b ia ib m, tp_ready (rn a) ia -> d_tp_msg (get_dev (rn a) ia) = None -> tp_msg m -> m_pgn m mod 256 = 0 -> bytes_ok (m_data m) ->
     tp_ready (rn b) ib -> addressed b (m_dst m) ib -> addressed a (d_src (get_dev (rn a) ia)) ia -> m_dst m <> 255 ->
-    Forall (fun s => s_free s = true) (r_slots b) -> 1 <= nslots b ->
+    Forall (fun s => s_free s = true /\ s_ready s = false) (r_slots b) -> 1 <= nslots b ->
     c_only_known (r_cfg b) = false -> snd (fst (check_known (n_pgn (rn b)) (m_pgn m))) = false ->
     let '(na, ev, ok) := send_msg (rn a) m ia in
     let '(a', b', dl, drained) := link gf 200 (with_rn a na) b [] (flat_map as_frame ev) [] in
